@@ -284,3 +284,30 @@ CLAIM.update({
         ref="DESIGN.md section 4, C13", technique="stateful model-based property testing (rapid-generated operation histories, model = ordered registry)",
         note="histories are generated as explicit operation lists so that each case is a serialisable, replayable value"),
 })
+
+PLAN["C18"] = dict(
+    quick=[dict(test="TestC18Rapid", checks=3000), *shards("TestC18Enum", 4)],
+    thorough=[*shards("TestC18Rapid", 12, checks=30000), *shards("TestC18Enum", 4)],
+)
+
+LEVEL.update({"C18": "exploration"})
+RULE.update({
+    "C18": "case = an upgraded exchange, handler side (raw client -> real service, handler consumes Call.Conn) or client side (real client's Upgrade "
+           "-> scripted raw server, test consumes the returned connection), on the in-memory transport or an abstract unix socket: after the request "
+           "(reply) frame the peer sends 0-3 further NUL-terminated frames and a payload of 0-10000 arbitrary bytes, under a cut plan that in half of "
+           "the cases puts the frame and everything after it into ONE segment (also 1-byte, 4095/4096/4097, random cuts); the consumer runs 1-12 "
+           "operations ReadBytes(0) / Read(n), n in {1,2,100,4095,4096,4097,10000}, then drains to EOF; optionally it first writes raw bytes back. "
+           "Plus the exhaustive product 2 sides x 2 transports x 4 cut plans x all consumer sequences of length <=3 over {ReadBytes, Read(1), "
+           "Read(5000)}. Oracle: cursor over the peer's stream - ReadBytes returns exactly up to the next delimiter, Read a non-empty prefix of "
+           "what follows, the drain exactly the rest; raw bytes written back arrive right after the reply (request) frame. Non-trivial = a raw Read "
+           "directly after a frame read while the segment carried later bytes.",
+})
+ASSUME.update({"C18": ["hang = no return within 10 s (30 s on retry)", "the in-memory transport is wrapped to accept deadlines after the peer closed, like a kernel socket"]})
+CLAIM.update({
+    "C18": dict(
+        text="Model-based property test of mixed frame/raw reads: generated byte streams, segmentations (frame coalesced with following bytes) and "
+             "consumer operation sequences on both sides of an upgraded call, compared with a byte-stream cursor model; short consumer sequences "
+             "enumerated exhaustively on both sides and transports.",
+        ref="DESIGN.md section 4, C18", technique="model-based property testing (rapid, generated operation sequences) + bounded-exhaustive consumer sequences; reference stream-cursor model",
+        note="found and fixed: raw Read bypassed the buffered reader (fix: 39be39c)"),
+})
